@@ -89,7 +89,7 @@ Proof.
   intro I. unfold cbus_inv in *.
   destruct i as [h r|h|h|h' h|p r|p r|p r|r]; cbn [exec].
   - pose proof (add_match_inv r _ _ I) as A. destruct (add_match r (subs c) (evs c)). exact A.
-  - destruct (take_last h (held c)) as [[r hl]|]; [|exact I].
+  - destruct (release_last h (held c)) as [[[r|] hl]|]; [|exact I|exact I].
     pose proof (remove_match_inv r _ _ I) as A. destruct (remove_match r (subs c) (evs c)). exact A.
   - exact I.
   - exact I.
@@ -129,7 +129,7 @@ Definition refcount_inv (c : conn) : Prop :=
   forall r, subs c r = live c r + count_rule r (pend c) + owed r (thr c).
 
 Definition plain_instr (i : instr) : bool :=
-  match i with ISub _ _ | IAsyncDrop _ | IDrop _ | IOwnerCheck _ _ => true | _ => false end.
+  match i with ISub _ _ | IAsyncDrop _ | IDrop _ | IClone _ _ | IOwnerCheck _ _ => true | _ => false end.
 Definition head_ok (i : instr) : bool :=
   plain_instr i || match i with IOwnerAdd _ _ | IOwnerSet _ _ => true | _ => false end.
 Definition shape (p : prog) : bool :=
@@ -158,24 +158,34 @@ Lemma prog_of_plain o : plain_op o = true -> forallb plain_instr (prog_of o) = t
 Proof. destruct o as [h r|h' h|h|h|h p [n|] sg|a l]; cbn; try reflexivity; discriminate. Qed.
 
 Lemma live_snoc c h r0 r hl :
-  hl = held c ++ [(h, r0)] -> count_rule r (map snd hl) = live c r + ind (lbeq r r0).
-Proof. intros ->. unfold live. rewrite map_app, count_rule_app. cbn [map snd]. rewrite count_rule_cons, count_rule_nil. lia. Qed.
-
-Lemma take_last_count h : forall l r0 l', take_last h l = Some (r0, l') ->
-  forall r, count_rule r (map snd l) = count_rule r (map snd l') + ind (lbeq r r0).
+  hl = held c ++ [([h], r0)] -> count_rule r (map snd hl) = live c r + ind (lbeq r r0).
 Proof.
-  induction l as [|x t IH]; intros r0 l' H r; cbn [take_last] in H; [discriminate|].
-  destruct (take_last h t) as [[r1 t']|].
-  - inversion H; subst. cbn [map]. rewrite !count_rule_cons. rewrite (IH r0 t' eq_refl r). lia.
-  - destruct (holds h x); [|discriminate]. inversion H; subst. cbn [map]. rewrite count_rule_cons. lia.
+  intros ->. unfold live. rewrite map_app, count_rule_app. cbn [map snd]. rewrite count_rule_cons, count_rule_nil.
+  rewrite Nat.add_0_r. reflexivity.
+Qed.
+
+Lemma release_last_count h : forall l o l', release_last h l = Some (o, l') ->
+  forall r, count_rule r (map snd l) =
+            count_rule r (map snd l') + match o with Some r0 => ind (lbeq r r0) | None => 0 end.
+Proof.
+  induction l as [|x t IH]; intros o l' H r; cbn [release_last] in H; [discriminate|].
+  destruct (release_last h t) as [[o1 t']|].
+  - inversion H; subst. cbn [map]. rewrite !count_rule_cons. rewrite (IH o t' eq_refl r). lia.
+  - destruct (has h x); [|discriminate]. destruct (emptied (without h x)); inversion H; subst; cbn [map without snd].
+    + rewrite count_rule_cons. lia.
+    + rewrite !count_rule_cons. cbn [snd]. lia.
 Qed.
 
 Lemma drop_partition h r : forall l,
-  count_rule r (map snd l) = count_rule r (map snd (filter (fun x => negb (holds h x)) l)) + count_rule r (rules_of h l).
+  count_rule r (map snd l) = count_rule r (map snd (fst (drop_all h l))) + count_rule r (snd (drop_all h l)).
 Proof.
-  unfold rules_of. induction l as [|x t IH]; [reflexivity|]. cbn [filter map].
-  destruct (holds h x); cbn [negb map]; rewrite !count_rule_cons, IH; lia.
+  induction l as [|x t IH]; [reflexivity|]. cbn [drop_all map].
+  destruct (drop_all h t) as [t' q]. cbn [fst snd] in *.
+  destruct (has h x); [destruct (emptied (without h x))|]; cbn [fst snd map without]; rewrite !count_rule_cons, IH; cbn [snd]; lia.
 Qed.
+
+Lemma share_rules h' h l : map snd (share h' h l) = map snd l.
+Proof. unfold share. rewrite map_map. apply map_ext. intro x. destruct (has h x); reflexivity. Qed.
 
 Lemma remove_one r0 : forall pre post r,
   count_rule r (pre ++ r0 :: post) = count_rule r (pre ++ post) + ind (lbeq r r0).
@@ -199,18 +209,25 @@ Proof.
     rewrite add_match_subs, (Base r). cbn [head_set ind].
     rewrite (live_snoc c h r0 r _ eq_refl). lia.
   - (* IAsyncDrop *)
-    destruct (take_last h (held c)) as [[r1 hl]|] eqn:TF.
+    destruct (release_last h (held c)) as [[[r1|] hl]|] eqn:TF.
     + destruct (remove_match r1 (subs c) (evs c)) as [s es] eqn:A. cbn [fst snd]. split; [|cbn [shape head_ok plain_instr orb andb]; exact Pl].
       intro r. unfold live; cbn [with_thr subs pend held thr]. rewrite owed_mid. cbn [head_set ind].
       replace s with (fst (remove_match r1 (subs c) (evs c))) by (rewrite A; reflexivity).
       rewrite remove_match_subs, (Base r). cbn [head_set ind]. unfold live.
-      rewrite (take_last_count h _ _ _ TF r). lia.
+      rewrite (release_last_count h _ _ _ TF r). lia.
+    + cbn [fst snd]. split; [|cbn [shape head_ok plain_instr orb andb]; exact Pl].
+      intro r. unfold live; cbn [with_thr subs pend held thr]. rewrite owed_mid. cbn [head_set ind].
+      rewrite (Base r). cbn [head_set ind]. unfold live. rewrite (release_last_count h _ _ _ TF r). lia.
     + cbn [fst snd]. split; [|exact ShRest]. intro r. cbn [with_thr subs pend held thr]. rewrite owed_mid, Hrest, (Base r).
       cbn [head_set ind]. reflexivity.
   - (* IDrop *)
     cbn [fst snd]. split; [|exact ShRest].
     intro r. unfold live; cbn [with_thr subs pend held thr]. rewrite owed_mid, Hrest, (Base r). cbn [head_set ind].
     rewrite count_rule_app. unfold live. rewrite (drop_partition h r (held c)). lia.
+  - (* IClone *)
+    cbn [fst snd]. split; [|exact ShRest].
+    intro r. unfold live; cbn [with_thr subs pend held thr]. rewrite owed_mid, Hrest, (Base r). cbn [head_set ind].
+    unfold live. rewrite share_rules. lia.
   - (* IOwnerCheck *)
     destruct (has_any p (held c)); cbn [fst snd].
     + split; [|exact ShRest]. intro r. cbn [with_thr subs pend held thr]. rewrite owed_mid, Hrest, (Base r). reflexivity.
@@ -310,4 +327,64 @@ Proof.
   apply app_inj_tail in X. destruct X as [_ X]. subst e. cbn [ev_rule] in G.
   rewrite G, andb_true_r in B. symmetry in B. apply Nat.ltb_ge in B.
   pose proof (refcount c' R' r). lia.
+Qed.
+
+(* ------------------------------------------------------------------ every subscription is shared by a live object
+   (so "a live subscription to r" and "a live stream/proxy subscribed to r" are the same thing); all operations *)
+Definition nonempty_sub (x : sub) : Prop := emptied x = false.
+Definition held_ok (c : conn) : Prop := Forall nonempty_sub (held c).
+
+Lemma drop_all_ok h : forall l, Forall nonempty_sub l -> Forall nonempty_sub (fst (drop_all h l)).
+Proof.
+  induction l as [|x t IH]; intro F; [constructor|]. inversion F as [|? ? Fx Ft]; subst. cbn [drop_all].
+  specialize (IH Ft). destruct (drop_all h t) as [t' q]. cbn [fst] in *.
+  destruct (has h x); [destruct (emptied (without h x)) eqn:E|]; cbn [fst]; auto.
+Qed.
+
+Lemma release_last_ok h : forall l o l', release_last h l = Some (o, l') -> Forall nonempty_sub l -> Forall nonempty_sub l'.
+Proof.
+  induction l as [|x t IH]; intros o l' H F; cbn [release_last] in H; [discriminate|].
+  inversion F as [|? ? Fx Ft]; subst.
+  destruct (release_last h t) as [[o1 t']|].
+  - inversion H; subst. constructor; [exact Fx|]. apply (IH o t' eq_refl Ft).
+  - destruct (has h x); [|discriminate]. destruct (emptied (without h x)) eqn:E; inversion H; subst; auto.
+Qed.
+
+Lemma share_ok h' h l : Forall nonempty_sub l -> Forall nonempty_sub (share h' h l).
+Proof.
+  intro F. unfold share. apply Forall_forall. intros y Hy. apply in_map_iff in Hy. destruct Hy as [x [E I]].
+  rewrite Forall_forall in F. specialize (F x I). subst y. destruct (has h x); [reflexivity|exact F].
+Qed.
+
+Lemma exec_held_ok i rest c : held_ok c -> held_ok (fst (exec i rest c)).
+Proof.
+  unfold held_ok. intro F. destruct i as [h r|h|h|h' h|p r|p r|p r|r]; cbn [exec].
+  - destruct (add_match r (subs c) (evs c)). cbn [fst held]. apply Forall_app. split; [exact F|constructor; [reflexivity|constructor]].
+  - destruct (release_last h (held c)) as [[[r|] hl]|] eqn:T; [| |exact F].
+    + destruct (remove_match r (subs c) (evs c)). cbn [fst held]. apply (release_last_ok h _ _ _ T F).
+    + cbn [fst held]. apply (release_last_ok h _ _ _ T F).
+  - cbn [fst held]. apply drop_all_ok, F.
+  - cbn [fst held]. apply share_ok, F.
+  - destruct (has_any p (held c)); exact F.
+  - destruct (add_match r (subs c) (evs c)). exact F.
+  - destruct (has_any p (held c)).
+    + destruct (remove_match r (subs c) (evs c)). exact F.
+    + cbn [fst held]. apply Forall_app. split; [exact F|constructor; [reflexivity|constructor]].
+  - destruct (add_match r (subs c) (evs c)). exact F.
+Qed.
+
+Lemma step_held_ok allowed c c' : step allowed c c' -> held_ok c -> held_ok c'.
+Proof.
+  intros S I. destruct S as [c o A|c pre i rest post T|c pre r post P].
+  - exact I.
+  - pose proof (exec_held_ok i rest c I) as E. destruct (exec i rest c) as [c' p']. exact E.
+  - destruct (remove_match r (subs c) (evs c)). exact I.
+Qed.
+
+Theorem held_nonempty allowed c : reachable allowed c -> Forall (fun x => fst x <> []) (held c).
+Proof.
+  intro R. assert (H : held_ok c).
+  { apply (steps_inv held_ok allowed (step_held_ok allowed) init c R). constructor. }
+  unfold held_ok in H. eapply Forall_impl; [|exact H]. intros x E. unfold nonempty_sub, emptied in E.
+  destruct (fst x); [discriminate|discriminate].
 Qed.
